@@ -1,5 +1,5 @@
 (* Proofs/C17.v — lemmas and proofs for the compression-negotiation model. *)
-From VR Require Import Model.C17.
+From VR Require Import Model.C17 Proofs.C17Pool.
 From Coq Require Import ZifyBool ZifyN ZifyNat.
 Local Arguments N.eqb : simpl never.
 Local Arguments N.leb : simpl never.
@@ -549,7 +549,7 @@ Proof. apply list_eqb_eq; [exact beqb_eq | reflexivity]. Qed.
 
 Lemma model_meets_spec : forall i, spec_ok i (model i) = true.
 Proof.
-  intros [h|cu st prod|enc uc ctype ne|ops cu st ctype ne]; cbn [model spec_ok].
+  intros [h|cu st prod|enc uc ctype ne|ops cu st ctype ne|codec lvl bodies rids oracle]; cbn [model spec_ok].
   - rewrite parse_accept_dd, s_uniq_dd. apply list_beqb_refl.
   - rewrite choose_spec. destruct (s_first prod (s_pref cu st)) as [c|]; [|reflexivity].
     now rewrite beqb_refl, eqb_reflx.
@@ -568,6 +568,9 @@ Proof.
       * cbn [spec_ok negb andb]. rewrite Ha, Ec. reflexivity.
     + cbn [spec_ok negb andb]. rewrite Ha, items_advertise, E.
       destruct (beqb ctype c17_arrow_content_type && ne); reflexivity.
+  - rewrite map_length, seq_length, Nat.eqb_refl, andb_true_r.
+    pose proof (model_picks_legal bodies (attach [] rids oracle)) as L. rewrite attach_fst in L. rewrite L, andb_true_r.
+    apply forallb_forall. intros b Hb. apply in_map_iff in Hb. destruct Hb as [r [<- _]]. apply resp_ok_true.
 Qed.
 
 (* ---- alternatives that do NOT meet the specification -------------------------- *)
@@ -658,4 +661,32 @@ Lemma advertised_consts :
 Proof.
   split; [apply advert_default_ok | split; [apply advert_disabled_ok | split;
     [apply supported_nodup | apply identity_not_supported]]].
+Qed.
+
+(* ---- the writer pool: statements of Props/C17.v ---------------------------------- *)
+Lemma pool_never_holds_live_writer bodies sched r w :
+  let s := prun true bodies sched in
+  In w (p_pool s) -> p_hold s r = Some w -> (length (body_of bodies r) + 5 <= p_pc s r)%nat.
+Proof. exact (pool_safe_l bodies sched r w). Qed.
+
+Lemma overlapping_lossless bodies sched r :
+  let s := prun true bodies sched in
+  ((length (body_of bodies r) + 3 <= p_pc s r)%nat -> p_sink s r = [Complete (body_of bodies r)]) /\
+  ((p_pc s r <= length (body_of bodies r) + 2)%nat -> p_sink s r = []).
+Proof. exact (closed_lossless_l bodies sched r). Qed.
+
+Lemma honoured_oracles_legal bodies sched :
+  s_picks_legal bodies (fun _ => O) (map fst sched) (rev (p_picks (prun true bodies sched))) = true.
+Proof. exact (model_picks_legal bodies sched). Qed.
+
+Lemma put_before_unpin_refuted :
+  exists bodies sched,
+    (exists r, let s := prun false bodies sched in
+       (length (body_of bodies r) + 3 <= p_pc s r)%nat /\ p_sink s r <> [Complete (body_of bodies r)]) /\
+    (exists k r w, let s := prun false bodies (firstn k sched) in
+       In w (p_pool s) /\ p_hold s r = Some w /\ (p_pc s r < length (body_of bodies r) + 5)%nat).
+Proof.
+  exists wit_bodies, wit_sched. split.
+  - exists 1%nat. exact legacy_lossless_refuted.
+  - exists 5%nat. exact legacy_pool_refuted.
 Qed.
